@@ -135,6 +135,78 @@ def _rm_setup(case, mode):
     RM.setup(case, mode)
 
 
+def _ss_setup(case, mode):
+    from harness import selstage as SS
+    SS.setup(case, mode)
+
+
+def h_selection_faults(ctx, case):
+    """query marker selection: an abnormal worker => select_all_markers
+    raises (no partial marker table is returned)"""
+    from harness import selstage as SS
+    res = SS.run_selection(ctx, case, faults=True)
+    abnormal = [m for m in res['outcome'].values() if m != 'ok']
+    ctx.note('outcome', dict(res['outcome']))
+    if abnormal:
+        ctx.reach('worker failed')
+        ctx.check(res['raised'] is not None,
+                  f'a worker terminated abnormally ({abnormal}) but a '
+                  'marker table was returned')
+    else:
+        ctx.reach('all workers ok')
+        ctx.check(res['raised'] is None, 'no worker failed => success: '
+                  + str(res['raised'])[:80])
+        if res['raised'] is None:
+            SS.check_selection(ctx, res)
+    return 'failed' if abnormal else 'ok'
+
+
+def _par_setup(case, mode):
+    from harness import C13
+    C13.setup_par(case, mode)
+
+
+def h_transposition_faults(ctx, case):
+    """parallel transposition: an abnormal worker => the call raises and
+    the scratch directory is left empty"""
+    import os
+    import numpy as np
+    from symx import mpmodel
+    from harness import C13
+    from harness.common import Env, dense_from_bits, to_csc
+    import cell_type_mapper.utils.csc_to_csr_parallel as PAR
+    nr, nc = case['shape']
+    env = Env(ctx)
+    dense = dense_from_bits(ctx, 'x', nr, nc)
+    indptr, indices, data = to_csc(dense)
+    nproc = ctx.int('n_processors', 1, case.get('max_proc', 3))
+    mpmodel.SCHED.reset(K=case.get('K', 0), faults=True, fault_steps=1)
+    src = env.path('src.h5')
+    with env.File(src, 'w') as f:
+        env.write_sparse(f, indptr, indices, data, dtype=np.float64)
+    out = env.path('out.h5')
+    raised = None
+    try:
+        PAR.transpose_sparse_matrix_on_disk_v2(
+            h5_path=src, indices_tag='indices', indptr_tag='indptr',
+            data_tag='data', indices_max=nr, max_gb=1, output_path=out,
+            tmp_dir=env.dir, n_processors=nproc)
+    except Exception as e:
+        raised = e
+    abnormal = [m for m in mpmodel.SCHED.outcome.values() if m != 'ok']
+    if abnormal:
+        ctx.reach('worker failed')
+        ctx.check(raised is not None, f'a worker terminated abnormally '
+                  f'({abnormal}) but the call returned normally')
+    else:
+        ctx.reach('all workers ok')
+        ctx.check(raised is None, 'no worker failed => success: '
+                  + str(raised)[:80])
+    left = [n for n in os.listdir(env.dir) if n not in ('src.h5', 'out.h5')]
+    ctx.check(left == [], f'scratch directory empty afterwards: {left[:3]}')
+    return 'failed' if abnormal else 'ok'
+
+
 def h_marker_stage_faults(ctx, case):
     """reference markers: an abnormal worker => the call raises and no
     file appears at the requested output location (the table is
@@ -243,6 +315,28 @@ HARNESSES = [
             bounds='real files (5 clusters, 10 pairs => two marker '
                    'workers; 1-3 transposition workers); one abnormal '
                    'worker of either pool, every failure mode',
+            expect_reach=['worker failed', 'all workers ok'], split=32),
+    Harness('selection_worker_faults', h_selection_faults, setup=_ss_setup,
+            cases=[{'vary_genes': ['g0'], 'target': 1}],
+            thorough_cases=[{'vary_genes': ['g0', 'g5'], 'K': 1}],
+            funcs=['selection_pipeline.select_all_markers',
+                   '_marker_selection_worker',
+                   'multiprocessing_utils.winnow_process_dict'],
+            stubs=['multiprocessing -> scheduler + fault model'],
+            bounds='reference-marker file of the real marker stage; 1-3 '
+                   'workers; every large-parent threshold; one abnormal '
+                   'worker in any mode',
+            expect_reach=['worker failed', 'all workers ok'], split=32),
+    Harness('transposition_worker_faults', h_transposition_faults,
+            setup=_par_setup, cases=[{'shape': [2, 2]}],
+            thorough_cases=[{'shape': [3, 2], 'K': 1}],
+            funcs=['csc_to_csr_parallel.transpose_sparse_matrix_on_disk_v2',
+                   '_transpose_subset_of_indices',
+                   'multiprocessing_utils.winnow_process_list'],
+            stubs=['h5py -> model; multiprocessing -> scheduler + fault '
+                   'model'],
+            bounds='every 2x2 pattern, 1-3 workers, one abnormal worker in '
+                   'any mode',
             expect_reach=['worker failed', 'all workers ok'], split=32),
     Harness('statistics_worker_faults', h_stats_faults, setup=_rs_setup,
             cases=[{'cells': 2, 'genes': 1, 'clusters': 1, 'via_tree': True,
